@@ -3,6 +3,7 @@ GEN = ("Trusted: Lean kernel (axioms propext/Classical.choice/Quot.sound only, a
        "validated by the correspondence run, the Go harness; crypto primitives, math/big and the Go runtime are modelled not verified.")
 CFG = {
     "lean": "Aqv.Props.C12",
+    "gen": ["translated"],
     "exe": "aqmodel_c12",
     "harness": "c12",
     "timeout": {"quick": 600, "thorough": 3000},
@@ -17,7 +18,8 @@ CFG = {
             "V around 27/28, 35+2c, 2c-19 (negative V'), 255/256, 2^64) under all three signer kinds, MakeSigner on the built-in configs around fork "
             "heights, TxPool.AddRemote and core.ApplyTransaction acceptance of valid / foreign-chain / high-S twins. "
             "Non-trivial = the real code did not answer with an error (distinct inputs counted).",
-    "tie": {"types.Sender / Signer.Sender / recoverPlain / crypto.ValidateSignatureValues": "corr (Go vs Model.TxSign.senderOf; RLP payload and Keccak recomputed in Lean, Ecrecover values supplied by the harness)",
+    "tie": {"core/types.isProtectedV / deriveChainId, crypto.ValidateSignatureValues (mini-translator)": "translated (go/ssa -> Lean on every run; vArith_code_is_model, validateSignatureValues_code_is_model at the model constants for secp256k1) + corr",
+            "types.Sender / Signer.Sender / recoverPlain / crypto.ValidateSignatureValues": "corr (Go vs Model.TxSign.senderOf; RLP payload and Keccak recomputed in Lean, Ecrecover values supplied by the harness)",
             "types.SignTx / WithSignature / SignatureValues": "corr (Go vs Model.TxSign.signTx; crypto.Sign value supplied by the harness)",
             "Signer.Hash, Transaction.Hash": "corr (hash recomputed in Lean from the RLP model and the executable Keccak)",
             "isProtectedV / deriveChainId (tx.Protected, tx.ChainId)": "corr",
